@@ -388,7 +388,7 @@ func runC11(c C11Case) string {
 	return ""
 }
 
-var c11Texts = []string{"a", "b", "abc", "name", "version", "x", "y", "$ion", "null", "+", "é", "a b", "sym1", "sym2", "f", "g", "s", "imports", "zz", "q"}
+var c11Texts = []string{"a", "b", "abc", "name", "version", "x", "y", "$ion", "null", "+", "é", "a b", "sym1", "sym2", "f", "g", "s", "imports", "zz", "q", "$11", "$40", "$99"}
 
 func c11Value(t *rapid.T, depth int, marshal bool, texts []string) model.Value {
 	sym := func() model.Sym {
@@ -400,7 +400,13 @@ func c11Value(t *rapid.T, depth int, marshal bool, texts []string) model.Value {
 	var v model.Value
 	switch k := gen.Intn(t, 8); {
 	case k < 4 || depth >= 2:
-		v = model.SymV(sym())
+		s := sym()
+		for marshal && drive.DollarDigits(s.Text) {
+			// a symbol-tagged string goes through WriteSymbolFromString, which
+			// documents $<digits> as an ID; as field name / annotation it is text
+			s = sym()
+		}
+		v = model.SymV(s)
 	case k == 4:
 		v = model.Int64V(int64(gen.Range(t, 0, 9)))
 	case k == 5:
@@ -496,6 +502,6 @@ func init() {
 	Describe("C11",
 		"cases: (entry point in {NewBinaryWriter(ssts...), NewBinaryWriterLST, MarshalBinary(v, ssts...), MarshalBinaryLST}, 0-3 shared tables with overlapping text / text equal to system symbols / Adjust-ed max_id above and below the table size, a fixed table's local symbols, 1-5 values whose symbol values, field names and annotations are drawn half from inside the tables and half from outside). For fixed tables 35% of cases leave some needed text out of the table. Non-trivial: at least one symbol resolved through an import or the system table and at least one outside. Distinct by digest(entry, tables, values).",
 		"oracle: reference decoder: (1) with the same tables as catalog, and ion-go's own reader with them, every value and text is recovered; (2) without any catalog the stream still decodes (imports carry max_id); (3) each symbol table struct declares exactly the given imports (name, version, max_id) in order; (4) growing tables: no local symbol duplicates text the system table or an import has, none is defined twice, none is unused; fixed tables: locals written as given; (5) every use of a text takes the lowest ID the table in force maps it to; (6) fixed table and text outside it: the consuming write call fails, every later call fails, earlier calls succeed, and the bytes emitted hold exactly the completed values before it",
-		"the empty text is exempt from (4) and (5) because ion-go never indexes it by name (DESIGN C09); $n-shaped text is not used (WriteSymbolFromString treats it as an ID by design)",
+		"the empty text is exempt from (4) and (5) because ion-go never indexes it by name (DESIGN C09); $<digits>-shaped text is used for field names, annotations and WriteSymbol tokens but never sent through WriteSymbolFromString (which documents it as an ID)",
 	)
 }
